@@ -7,7 +7,7 @@
 From Coq Require Import String.
 From Coq Require Import List NArith Bool.
 From Wbxml Require Import Model.Codec Model.TablesDefs Gen.TablesData Model.Parser Model.TreeBuild Model.TreeConv Model.Conv Model.ConvConcrete
-     Proofs.TreeBuildProofs Proofs.TreeBuildProofs3 Proofs.TreeRoundTrip Proofs.ConvRoundTrip Proofs.ConvSecondIter Proofs.ConvFirstToSecond.
+     Proofs.TreeBuildProofs Proofs.TreeBuildProofs3 Proofs.TreeRoundTrip Proofs.ConvRoundTrip Proofs.ConvSecondIter Proofs.ConvFirstToSecond Proofs.ConvSecondIndent.
 From Wbxml Require Model.EncWbxml Model.EncWbxmlTables Model.TreeNorm Proofs.EncWbxmlProofs Proofs.EncWbxmlSerialize Proofs.EncWbxmlDenote.
 From Wbxml Require Model.EncXml Model.XmlRead Proofs.EncXmlProofs Proofs.EncXmlIndent.
 From Wbxml Require Model.XmlFront Model.ConvXml2Wbxml Model.LangSelect Proofs.FrontSimple.
@@ -236,6 +236,59 @@ Theorem C03_normalised_source_is_normal : forall L keep n d, src_ok L d n -> For
 Proof. exact norm_enormal. Qed.
 Print Assumptions C03_normalised_source_is_normal.
 
+(* ================================ indented generation ================================ *)
+
+(* The same end-to-end statement for INDENTED generation (any indent width), when the encoder's keep_ws is OFF: the white space
+   that the generator inserts between markup is read back as character data, the front end builds the tree "R2 with blank texts
+   between markup" (etree of the reading), and the encoder's normalisation drops / trims exactly that white space: the normal form
+   of that tree is R2 again (from C07's reading theorem - the indented and the compact readings are equal modulo blank text
+   between markup, nb - and NN_nb: the normal form does not see what nb removes).  So the second trip writes x again.
+   With keep_ws ON the statement is FALSE: the indentation is kept as content and indented again - x grows at every trip, in the
+   C and in both models alike (C03_ex_indent_keep_ws_grows; reported to the coordinator as a candidate finding; props/C03's way
+   back is compact and does not see it). *)
+Theorem C03_roundtrip_and_idempotence_indent_partial :
+  forall (main TBL : list lang) (btbl : list EncWbxml.blang) (sub : EncWbxml.bytes -> XmlFront.xtree + N)
+         evs expat_ok o doc w (L : lang) l p t opts nm ch o',
+  let root := EncWbxml.NElt (EncWbxml.TagTok p t opts nm) [] ch in
+  let R2 := EncWbxml.NElt (EncWbxml.TagTok p t opts nm) [] (flat_map (TreeNorm.norm_node false false) ch) in
+  let root' := tnode_of R2 in
+  let xl := EncXml.xlang_of L in
+  let xoc := EncXml.opts_of_params EncXml.Compact 0 (wo_keep_ws o') in
+  r_out (ConvXml2Wbxml.xml2wbxml_events main btbl sub evs expat_ok o doc) = Some w ->
+  (forall t0, XmlFront.tree_from_xml main sub doc evs expat_ok = inl t0 ->
+     EncWbxml.find_lang btbl (XmlFront.xt_lang t0) = Some l /\ XmlFront.xt_roots t0 = [root]) ->
+  EncWbxmlSerialize.frag_lang l = true -> EncWbxml.o_use_strtbl o = false -> EncWbxmlProofs.no_pid (EncWbxml.enc_env l o) = true ->
+  EncWbxmlSerialize.frag_node root = true ->
+  find (fun y => l_id y =? l_id L) TBL = Some L ->
+  lang_choice TBL L (EncWbxml.header_public_id (EncWbxml.enc_env l o)) (wo_lang o') -> wo_charset o' = 0 ->
+  EncWbxmlDenote.tree_ok L 0 root = true ->
+  EncWbxml.o_version o < 4 -> EncWbxml.header_public_id (EncWbxml.enc_env l o) < 4294967296 ->
+  EncWbxml.header_public_id (EncWbxml.enc_env l o) <> 0 ->
+  no_data (flat_map EncWbxmlDenote.events_node (TreeNorm.norm (EncWbxml.o_keep_ws o) [root])) = true ->
+  src_ok L 0 root -> EncWbxml.find_lang btbl (l_id L) = Some l ->
+  LangSelect.search_table main (option_map XmlFront.str (EncXml.xl_pub xl)) (Some (XmlFront.str (EncXml.xl_dtd xl))) None = Some L ->
+  gen_of (wo_gen o') = EncXml.Indent -> EncWbxml.o_keep_ws o = false ->
+  EncXml.xl_ns xl = None -> EncXml.is_syncml xl = false ->
+  EncXmlProofs.lang_ok xl = true -> EncXmlIndent.node_ok_g xl xoc EncXml.proot None (to_xnode TBL L root') = true ->
+  exists x ci d,
+    wbxml2xml_model TBL o' w = mk_res ST_OK (Some (x ++ [0])) (N.of_nat (length x)) /\
+    EncXml.enc_xml xl EncXml.Indent (wo_indent o') (wo_keep_ws o') [to_xnode TBL L root'] = EncXml.XOk x /\
+    d = EncXmlProofs.doc_of xl [XmlRead.XE nm [] ci] /\
+    (forall fuel, (EncXmlProofs.node_fuel (to_xnode TBL L root') + 2 <= fuel)%nat -> XmlRead.read_xml fuel x = XmlRead.ROk d) /\
+    TreeNorm.norm false [etree L (XmlRead.XE nm [] ci)] = [R2] /\
+    forall doc2, doc2 <> [] ->
+      XmlFront.tree_from_xml main sub doc2 (events_of_info d) true = inl (XmlFront.mk_xtree (l_id L) 0 [etree L (XmlRead.XE nm [] ci)]) /\
+      exists w2, r_out (ConvXml2Wbxml.xml2wbxml_events main btbl sub (events_of_info d) true o doc2) = Some w2 /\
+                 wbxml2xml_model TBL o' w2 = mk_res ST_OK (Some (x ++ [0])) (N.of_nat (length x)).
+Proof. exact roundtrip_and_idempotence_indent. Qed.
+Print Assumptions C03_roundtrip_and_idempotence_indent_partial.
+
+(* the normal form of a front-end tree does not see the difference between two readings that are equal modulo blank text
+   between markup *)
+Theorem C03_normal_form_ignores_blank_text_between_markup : forall L it, NN L (EncXmlIndent.nb it) = NN L it.
+Proof. exact NN_nb. Qed.
+Print Assumptions C03_normal_form_ignores_blank_text_between_markup.
+
 (* ---- the hypotheses are satisfiable: a WML 1.3 deck through BOTH conversion functions, by computation ----
    <!DOCTYPE wml PUBLIC "-//WAPFORUM//DTD WML 1.3//EN" ...><wml><card><p> a </p><p>  </p></card></wml>
    encoder: WBXML 1.3, no string table, keep_ws off;  generator: compact, language not forced. *)
@@ -336,3 +389,35 @@ Proof.
   vm_compute. repeat split; try reflexivity; try discriminate; try (right; reflexivity).
   all: repeat constructor.
 Qed.
+
+(* ---- indented generation with keep_ws ON: the second trip does NOT reproduce x (both models; the C agrees) ----
+   <wml><card><p>a</p></card></wml>, encoder keep_ws on, generator indent 2 / keep_ws on: 160 bytes, then 174 *)
+Definition ex_evs_k : list XmlFront.event :=
+  [XmlFront.EvStartDoctype (XmlFront.bs "wml") (Some (XmlFront.bs "http://www.wapforum.org/DTD/wml13.dtd")) (Some (XmlFront.bs "-//WAPFORUM//DTD WML 1.3//EN"));
+   XmlFront.EvStartElement (XmlFront.bs "wml") [] 0; XmlFront.EvStartElement (XmlFront.bs "card") [] 0;
+   XmlFront.EvStartElement (XmlFront.bs "p") [] 0; XmlFront.EvCharacters (XmlFront.bs "a"); XmlFront.EvEndElement (XmlFront.bs "p") 0;
+   XmlFront.EvEndElement (XmlFront.bs "card") 0; XmlFront.EvEndElement (XmlFront.bs "wml") 0].
+Definition ex_trip (keep : bool) (ev : list XmlFront.event) : option (bytes * bytes) :=
+  match r_out (ConvXml2Wbxml.xml2wbxml_events main_table EncWbxmlTables.main_btable ex_sub ev true (EncWbxml.mk_opts 3 false keep false) [60]) with
+  | Some w => match r_out (wbxml2xml_model main_table (mk_w2x 0 0 1 2 keep) w) with
+              | Some x => Some (w, firstn (length x - 1) x)
+              | None => None
+              end
+  | None => None
+  end.
+Definition ex_two_trips (keep : bool) : option (nat * nat * bool) :=
+  match ex_trip keep ex_evs_k with
+  | Some (w1, x1) =>
+    match XmlRead.read_xml_auto x1 with
+    | XmlRead.ROk d => match ex_trip keep (events_of_info d) with
+                       | Some (w2, x2) => Some (length x1, length x2, if list_eq_dec N.eq_dec x1 x2 then true else false)
+                       | None => None
+                       end
+    | _ => None
+    end
+  | None => None
+  end.
+Example C03_ex_indent_keep_ws_grows : ex_two_trips true = Some (160%nat, 174%nat, false).
+Proof. vm_compute. reflexivity. Qed.
+Example C03_ex_indent_keep_ws_off_identical : ex_two_trips false = Some (160%nat, 160%nat, true).
+Proof. vm_compute. reflexivity. Qed.
